@@ -143,14 +143,8 @@ func (api *API) decodeBasedOnType(ctx context.Context, b []byte, value reflect.V
 			}
 
 			return api.decodeStruct(ctx, b, elemValue, elemType, ts, opts)
-		case reflect.Slice:
-			return api.decodeSlice(ctx, b, elemValue, elemType, ts, opts)
-		case reflect.Ptr:
-			return api.decodeBasedOnType(ctx, b, elemValue, elemType, ts, opts)
 		case reflect.Interface:
 			return api.decodeInterface(ctx, b, elemValue, elemType, ts, opts)
-		case reflect.Map:
-			return api.decodeMap(ctx, b, elemValue, elemType, ts, opts)
 		case reflect.Array:
 			return api.decodeArray(ctx, b, elemValue, ts, opts)
 		default:
@@ -164,9 +158,9 @@ func (api *API) decodeBasedOnType(ctx context.Context, b []byte, value reflect.V
 
 		return api.decodeStruct(ctx, b, value, valueType, ts, opts)
 	case reflect.Slice:
-		return api.decodeSlice(ctx, b, value, valueType, ts, opts)
+		return afterTypeCode(ts, b, func(b []byte) (int, error) { return api.decodeSlice(ctx, b, value, valueType, ts, opts) })
 	case reflect.Map:
-		return api.decodeMap(ctx, b, value, valueType, ts, opts)
+		return afterTypeCode(ts, b, func(b []byte) (int, error) { return api.decodeMap(ctx, b, value, valueType, ts, opts) })
 	case reflect.Array:
 		return api.decodeArray(ctx, b, value, ts, opts)
 	case reflect.Interface:
@@ -175,6 +169,10 @@ func (api *API) decodeBasedOnType(ctx context.Context, b []byte, value reflect.V
 		lengthPrefixType, set := ts.LengthPrefixType()
 		if !set {
 			return 0, ierrors.New("can't deserialize 'string' type: no LengthPrefixType was provided")
+		}
+		b, typeCodeBytesRead, err := readTypeCode(ts, b)
+		if err != nil {
+			return 0, err
 		}
 		deseri := serializer.NewDeserializer(b)
 		addrValue := value.Addr()
@@ -209,9 +207,13 @@ func (api *API) decodeBasedOnType(ctx context.Context, b []byte, value reflect.V
 			}
 		}
 
-		return deseri.Done()
+		return doneAfterTypeCode(deseri, typeCodeBytesRead)
 
 	case reflect.Bool:
+		b, typeCodeBytesRead, err := readTypeCode(ts, b)
+		if err != nil {
+			return 0, err
+		}
 		deseri := serializer.NewDeserializer(b)
 		addrValue := value.Addr()
 
@@ -221,11 +223,15 @@ func (api *API) decodeBasedOnType(ctx context.Context, b []byte, value reflect.V
 			return ierrors.Wrap(err, "failed to read bool value from the deserializer")
 		})
 
-		return deseri.Done()
+		return doneAfterTypeCode(deseri, typeCodeBytesRead)
 
 	case reflect.Int8, reflect.Int16, reflect.Int32, reflect.Int64,
 		reflect.Uint8, reflect.Uint16, reflect.Uint32, reflect.Uint64,
 		reflect.Float32, reflect.Float64:
+		b, typeCodeBytesRead, err := readTypeCode(ts, b)
+		if err != nil {
+			return 0, err
+		}
 		deseri := serializer.NewDeserializer(b)
 		addrValue := value.Addr()
 		_, _, addrTypeToConvert := getNumberTypeToConvert(valueType.Kind())
@@ -234,11 +240,60 @@ func (api *API) decodeBasedOnType(ctx context.Context, b []byte, value reflect.V
 			return ierrors.Wrap(err, "failed to read number value from the serializer")
 		})
 
-		return deseri.Done()
+		return doneAfterTypeCode(deseri, typeCodeBytesRead)
 	default:
 	}
 
 	return 0, ierrors.Errorf("can't decode: unsupported type %s", valueType)
+}
+
+// readTypeCode checks and removes the type code of the type settings (if they have one) in front of the serialized form
+// of a value whose kind has no place of its own for it (see withTypeCode).
+func readTypeCode(ts TypeSettings, b []byte) (remaining []byte, bytesRead int, err error) {
+	objectType := ts.ObjectType()
+	if objectType == nil {
+		return b, 0, nil
+	}
+
+	typeDen, objectCode, err := getTypeDenotationAndCode(objectType)
+	if err != nil {
+		return nil, 0, ierrors.WithStack(err)
+	}
+
+	deseri := serializer.NewDeserializer(b)
+	deseri.CheckTypePrefix(objectCode, typeDen, func(err error) error {
+		return ierrors.Wrap(err, "failed to check object type")
+	})
+	remaining = deseri.RemainingBytes()
+	if bytesRead, err = deseri.Done(); err != nil {
+		return nil, 0, ierrors.WithStack(err)
+	}
+
+	return remaining, bytesRead, nil
+}
+
+// afterTypeCode calls the given decode function with the bytes that follow the type code of the type settings.
+func afterTypeCode(ts TypeSettings, b []byte, decode func(b []byte) (int, error)) (int, error) {
+	b, typeCodeBytesRead, err := readTypeCode(ts, b)
+	if err != nil {
+		return 0, err
+	}
+
+	bytesRead, err := decode(b)
+	if err != nil {
+		return 0, err
+	}
+
+	return typeCodeBytesRead + bytesRead, nil
+}
+
+func doneAfterTypeCode(deseri *serializer.Deserializer, typeCodeBytesRead int) (int, error) {
+	bytesRead, err := deseri.Done()
+	if err != nil {
+		return 0, err
+	}
+
+	return typeCodeBytesRead + bytesRead, nil
 }
 
 func (api *API) decodeInterface(
@@ -395,7 +450,9 @@ func (api *API) decodeArray(ctx context.Context, b []byte, value reflect.Value, 
 	// if it is an array of objects, handle the array like a slice.
 	// the elements are decoded into a new addressable slice and copied into the array afterwards.
 	sliceValue = reflect.New(sliceValueType).Elem()
-	bytesRead, err := api.decodeSlice(ctx, b, sliceValue, sliceValueType, ts, opts)
+	bytesRead, err := afterTypeCode(ts, b, func(b []byte) (int, error) {
+		return api.decodeSlice(ctx, b, sliceValue, sliceValueType, ts, opts)
+	})
 	if err != nil {
 		return bytesRead, err
 	}
